@@ -18,7 +18,7 @@
    iterates the underlying maps: arbitrary, except that every key is visited
    exactly once ([covers]; C03_go_orders_cover shows that the orders Go can
    produce satisfy it). Quantifiers: all sets, all values, all orders; no bound. *)
-From Typ Require Import Sets.AnySet Sets.MapSetProofs Sets.SyncSetProofs Sets.AnySetProofs Sets.SetsInst SyncMap.SeqProofs.
+From Typ Require Import Sets.AnySet Sets.MapSetProofs Sets.SyncSetProofs Sets.AnySetProofs Sets.SetsInst SyncMap.SeqProofs Sets.SetsCheck.
 From stdpp Require Import gmap list.
 Local Open Scope Z_scope.
 
@@ -178,3 +178,32 @@ Example C03_example :
   | _ => False
   end.
 Proof. split; [apply (bool_decide_unpack _); vm_compute; exact I|]. vm_compute. repeat split. Qed.
+
+(* The correspondence check discriminates what the property fixes and nothing
+   else: the pairs of CartesianProduct in another (b-major) order are accepted,
+   a duplicated or a missing pair is rejected; String is accepted whatever its
+   brackets and separators and rejected when a value is missing; a wrong
+   lock/promote/expunge path mask of a single sync2.Map call is rejected (the
+   first Add to a new sync2.Set takes the mutex: mask 1; the Len after it
+   promotes: mask 3). *)
+Example C03_check_case_discriminates :
+  let prefix := [(CNew IM, VUnit, -1); (CAdd 0 1, VBool true, -1); (CAdd 0 2, VBool true, -1);
+                 (CNew IM, VUnit, -1); (CAdd 1 5, VBool true, -1); (CAdd 1 6, VBool true, -1)] in
+  let cart l := SetsCheck.Case [1;2;5;6] (prefix ++ [(CCartesian 0 1, VPairs l, -1)]) in
+  let str t := SetsCheck.Case [1;2;5;6] (prefix ++ [(CString 0, VToks t, -1)]) in
+  let sync m1 m2 := SetsCheck.Case [1] [(CNew IS, VUnit, -1); (CAdd 0 1, VBool true, m1); (CLen 0, VInt 1, m2)] in
+  SetsCheck.check_case (cart [(1,5);(1,6);(2,5);(2,6)]) = true ∧
+  SetsCheck.check_case (cart [(2,5);(1,5);(2,6);(1,6)]) = true ∧
+  SetsCheck.check_case (cart [(2,5);(1,5);(2,6);(1,6);(1,6)]) = false ∧
+  SetsCheck.check_case (cart [(2,5);(1,5);(2,6);(2,6)]) = false ∧
+  SetsCheck.check_case (cart [(2,5);(1,5);(2,6)]) = false ∧
+  SetsCheck.check_case (str [TOpen; TVal 2; TSpace; TVal 1; TClose]) = true ∧
+  SetsCheck.check_case (str [TVal 2; TVal 1]) = true ∧
+  SetsCheck.check_case (str [TOpen; TVal 2; TClose]) = false ∧
+  SetsCheck.check_case (str [TVal 2; TVal 1; TVal 1]) = false ∧
+  SetsCheck.check_case (sync 1 3) = true ∧
+  SetsCheck.check_case (sync (-1) (-1)) = true ∧
+  SetsCheck.check_case (sync 0 3) = false ∧
+  SetsCheck.check_case (sync 1 0) = false ∧
+  SetsCheck.check_case (sync 5 3) = false.
+Proof. vm_compute. repeat split. Qed.
